@@ -216,13 +216,13 @@ func (runInfo *runInfoStruct) callExpr() {
 	// useCallSlice lets us know to use CallSlice instead of Call because of the format of the args
 	if useCallSlice {
 		if callExpr.Go {
-			go f.CallSlice(args)
+			runInfo.goFunc(func() { f.CallSlice(args) })
 			return
 		}
 		rvs = f.CallSlice(args)
 	} else {
 		if callExpr.Go {
-			go f.Call(args)
+			runInfo.goFunc(func() { f.Call(args) })
 			return
 		}
 		rvs = f.Call(args)
@@ -300,17 +300,18 @@ func (runInfo *runInfoStruct) callVMFunctionDirect(f reflect.Value, callExpr *as
 	runInfo.rv = nilValue
 
 	if callExpr.Go {
+		ctx := runInfo.ctx
 		switch {
 		case fn0 != nil:
-			go fn0(runInfo.ctx)
+			runInfo.goFunc(func() { fn0(ctx) })
 		case fn1 != nil:
-			go fn1(runInfo.ctx, args[0])
+			runInfo.goFunc(func() { fn1(ctx, args[0]) })
 		case fn2 != nil:
-			go fn2(runInfo.ctx, args[0], args[1])
+			runInfo.goFunc(func() { fn2(ctx, args[0], args[1]) })
 		case fn3 != nil:
-			go fn3(runInfo.ctx, args[0], args[1], args[2])
+			runInfo.goFunc(func() { fn3(ctx, args[0], args[1], args[2]) })
 		case fn4 != nil:
-			go fn4(runInfo.ctx, args[0], args[1], args[2], args[3])
+			runInfo.goFunc(func() { fn4(ctx, args[0], args[1], args[2], args[3]) })
 		}
 		return true
 	}
@@ -341,6 +342,22 @@ func (runInfo *runInfoStruct) callVMFunctionDirect(f reflect.Value, callExpr *as
 
 	runInfo.rv = rv
 	return true
+}
+
+// goFunc starts fn on a new goroutine.
+// When not in debug mode a panic raised on that goroutine is captured,
+// so a function started with go can not crash the host program.
+func (runInfo *runInfoStruct) goFunc(fn func()) {
+	if runInfo.options.Debug {
+		go fn()
+		return
+	}
+	go func() {
+		defer func() {
+			_ = recover()
+		}()
+		fn()
+	}()
 }
 
 // checkIfRunVMFunction checking the number and types of the reflect.Type.
